@@ -105,4 +105,13 @@ CHECKS["C20"] = {
             "Correspondence: risk backtests (flat / nested, multipliers, own-index unit-risk tables, history depth), FI backtests with close / roll tables; oracles on risks "
             "and close dates; multi-measure / pseudo-inverse hedges: post-condition suite on the real code. Known finding K14.",
     "note": COMMON_NOTE + " np.linalg.inv / pinv are oracles: the k x k and least-squares cases are tested on the implementation, not proved; per-security risk history frames are not modelled."}
+CHECKS["C09"] = {
+    "text": "Theorems (partial): the shadow (paper-trading) copy a sub-strategy is set up with is, field for field, the tree that building the same definition "
+            "stand-alone with the default notional gives, and stepping it on a date is exactly one stand-alone backtest step of that tree (update, then run the stack, "
+            "then refresh) -- so by induction over dates the two index series coincide; the child's recorded price is the shadow's price and the parent's universe column "
+            "is that price. Correspondence/relational suite: generated nested backtests (calendar-gated children, any parent schedule incl. never funding a child, "
+            "integer/fractional, commissions) where every child definition is also backtested stand-alone: child.prices = stand-alone prices = parent universe column, "
+            "bit for bit on every date, and every run is also compared with the model.",
+    "note": COMMON_NOTE + " Partial: the theorem is per step under the model's level-closed paper_step (a child of a child is followed one level at a time); children whose stack acts on the "
+            "synthetic pre-start row are excluded by the property's quantifier (calendar-gated stacks) and by the generator."}
 NOT_APPLICABLE = {}
